@@ -126,6 +126,7 @@ class Ctx:
         view = view or View()
         opts = opts or Options(integer_dims=view.integer_dims)
         code = self.paths(ctx, f, opts)
+        spec_src = self._rename_private_attrs(spec_src, ctx, f)
         spec_f = parse_spec_function(spec_src, f.module, f.cls)
         self._compare_signatures(rule, f, spec_f, ctx, cls, own)
         spec_paths, ex2 = function_paths(repo, ctx, spec_f, opts)
@@ -152,6 +153,49 @@ class Ctx:
                 self.violation(rule, construct, m.key(), '%s: %s' % (what or 'behaviour differs from the property', m.diff),
                                where='%s:%d' % (f.module.relpath, m.line), detail=describe(m))
         return mism
+
+    def _rename_private_attrs(self, spec_src: str, ctx: ClassInfo, f: FuncInfo) -> str:
+        """A private attribute (`self._x`) renamed consistently in the whole class is the same program.  If the
+        reference uses private attributes that occur *nowhere* in the class (nor its bases) any more, and the method
+        uses equally many (at most 2) private attributes the reference does not know, the reference is read with
+        those names exchanged (in order of first use).  One map per class, fixed by the first table that needs it."""
+        import ast as _ast
+        import re as _re
+        import textwrap as _tw
+
+        def priv(tree):
+            out = []
+            for n in _ast.walk(tree):
+                if isinstance(n, _ast.Attribute) and isinstance(n.value, _ast.Name) and n.value.id == 'self' \
+                        and n.attr.startswith('_') and not n.attr.startswith('__') and n.attr not in out:
+                    out.append(n.attr)
+            return out
+        cache = self.__dict__.setdefault('_priv_maps', {})
+        key = ctx.qualname
+        if key in cache:
+            m = cache[key]
+        else:
+            try:
+                spec_tree = _ast.parse(_tw.dedent(spec_src))
+            except SyntaxError:
+                return spec_src
+            spec_attrs = priv(spec_tree)
+            class_attrs = set()
+            methods = set()
+            for c in ctx.mro():
+                methods |= set(c.methods) | set(c.attrs)
+                for g in c.methods.values():
+                    class_attrs |= set(priv(g.node))
+            missing = [a for a in spec_attrs if a not in class_attrs and a not in methods]
+            unknown = [a for a in priv(f.node) if a not in spec_attrs and a not in methods]
+            if not missing or len(missing) != len(unknown) or len(missing) > 2:
+                return spec_src
+            m = dict(zip(missing, unknown))
+            cache[key] = m
+            self.notes.append('private attributes of %s read as renamed: %s' % (ctx.name, m))
+        for old_, new_ in m.items():
+            spec_src = _re.sub(r'\bself\.%s\b' % _re.escape(old_), 'self.' + new_, spec_src)
+        return spec_src
 
     def _compare_signatures(self, rule, f, spec_f, ctx, cls, own):
         """number of parameters and default values (canonical terms) agree with the reference"""
